@@ -145,6 +145,16 @@ Theorem C18_roundtrip_obs_partial : forall k v s s',
 Proof. exact roundtrip_obs_iff. Qed.
 Print Assumptions C18_roundtrip_obs_partial.
 
+(* the exported document is a function of the observable state (orphaned code of destroyed contracts does not leak) *)
+Theorem C18_export_depends_on_observables_only : forall k v s1 s2, wfb v s1 = true ->
+  e_params (s_evm s1) = e_params (s_evm s2) -> e_codehash (s_evm s1) = e_codehash (s_evm s2) ->
+  e_storage (s_evm s1) = e_storage (s_evm s2) -> (forall a, q_code (s_evm s1) a = q_code (s_evm s2) a) ->
+  s_fm s1 = s_fm s2 -> c_params (s_cpc s1) = c_params (s_cpc s2) ->
+  zhas (k_staking_addr k) (c_metas (s_cpc s1)) = zhas (k_staking_addr k) (c_metas (s_cpc s2)) ->
+  export k s1 = export k s2.
+Proof. exact export_observable. Qed.
+Print Assumptions C18_export_depends_on_observables_only.
+
 (* ------------------------------------------------------------------ non-vacuity and witnesses *)
 (* a contract (code 5) with a zero-valued and a non-zero slot, a code-less account (20) holding a slot, an orphaned
    code (6) of a destroyed contract; staking precompile as genesis deploys it *)
